@@ -38,6 +38,7 @@ def closure(cond):
 
 
 def job(cfg):
+    SK.USE_FLOORS[0] = bool(cfg.get("floors"))
     kind, K, mode, box = cfg["kind"], cfg["K"], cfg["mode"], cfg["box"]
     timeout = cfg["timeout"]
     R = sc.new_registry()
@@ -57,7 +58,7 @@ def job(cfg):
     xt = holder["x"].a[0].t
     left, right, bottom, top = SK.box_terms(mode, holder["bx"])
     rets = []
-    tag = "%s/%s/K=%d/box=%s" % (kind, mode, K, box)
+    tag = "%s/%s/K=%d/box=%s%s" % (kind, mode, K, box, "/floors" if cfg.get("floors") else "")
 
     def record(o, path, relation, extra=None):
         jr["outcomes"].append(o.as_dict())
@@ -230,6 +231,9 @@ def configs(tier):
                 if kind == "quadratic" and mode == "tails" and K == 1:
                     continue  # the unconstrained quadratic spline needs K-1 >= 1 interior heights
                 cfgs.append({"kind": kind, "K": K, "mode": mode, "box": box, "timeout": 60 if tier == "quick" else 600, "nval": 8})
+    # non-default and mutually different floors (min_bin_width != min_bin_height != min_derivative)
+    for kind in ("rq", "quadratic", "cubic"):
+        cfgs.append({"kind": kind, "K": 2, "mode": "box", "box": "unit", "floors": True, "timeout": 60 if tier == "quick" else 600, "nval": 8})
     return cfgs
 
 
